@@ -220,7 +220,7 @@ def gen_set(tier, seed, idx, kind, shape=None):
         short = True
         sizes = [rng.choice([0, rng.randint(1, 40), rng.randint(500, 40000), rng.randint(500, 40000)]) for _ in range(64)]
     else:                                                         # M
-        total = rng.randint(18, 24) * 1024 * 1024
+        total = rng.randint(18, 24) * 1024 * 1024 if kind == "lines" else rng.randint(9, 12) * 1024 * 1024
         ws = [rng.choice([0, 1, 1, 1]) * (rng.random() + 0.1) for _ in range(40)]
         sizes = [int(total * w / sum(ws)) for w in ws]
     cuts = collections.defaultdict(set)
@@ -258,10 +258,12 @@ def expand_runs(tok_line):
     return out
 
 
-def model_session(fset, ranks_list):
-    """returns (sizes, {n: (carve per rank, delivered per rank)}, all-lines)"""
+def model_session(fset, ranks_list, nvis=None):
+    """model over the first `nvis` files of the set (default: all).
+    returns (sizes, wf, {n: (carve per rank, delivered per rank)}, all-lines)"""
+    files = fset["files"] if nvis is None else fset["files"][:nvis]
     lines = ["reset"]
-    for nl, lens in fset["files"]:
+    for nl, lens in files:
         lines.append(f"file {1 if nl else 0} " + " ".join(map(str, lens)))
     for n in ranks_list:
         lines += [f"carve {n} {G}", f"deliver {n} {G}"]
@@ -269,7 +271,7 @@ def model_session(fset, ranks_list):
     out = C.model("lines", lines)
     k = 1
     sizes, wf = [], []
-    for _ in fset["files"]:
+    for _ in files:
         w = out[k].split()
         sizes.append(int(w[1]))
         wf.append(w[5] == "1")
@@ -286,29 +288,54 @@ def model_session(fset, ranks_list):
 
 # ------------------------------------------------------------------ one run of the real code
 
-def factor_layout(r):
+def factor_layout(r, g0=0, placement="block"):
+    """(nodes, ranks per node).  Sub-communicator runs keep every group's ranks-per-node uniform (ygm's NR/NLNR
+    routers assume it): one node, or groups of 2 and r-2 ranks made of whole nodes (block: r/2 nodes x 2) resp.
+    spread evenly over 2 nodes (cyclic: 2 nodes x r/2)."""
+    if g0:
+        if g0 == 2 and r % 2 == 0 and r > 4:
+            return (2, r // 2) if placement == "cyclic" else (r // 2, 2)
+        return (1, r)
     return (2, r // 2) if r % 2 == 0 and r > 2 else (1, r)
 
 
-def run_real(binary, fset, n, pathmode, opts, sim_seed):
-    """opts: buf (YGM_COMM_BUFFER_SIZE_KB or None = library default), routing, policy (simmpi), calls"""
+def visible(fset, pathmode):
+    """number of files (a prefix of the set, in sorted path order) line_parser is specified to visit:
+    check_paths takes listed regular files, the regular files directly inside a listed directory, and with
+    recursive = true every regular file below it.  In the tree layout of harness/lines.cpp the top-level files
+    are the first ceil(n/3)."""
+    n = len(fset["files"])
+    return (n + 2) // 3 if pathmode == "tree-flat" else n
+
+
+def groups_of(n, opts):
+    g0 = opts.get("g0", 0)
+    return [list(range(n))] if not g0 else [list(range(g0)), list(range(g0, n))]
+
+
+def run_real(binary, fset, n, opts, sim_seed):
+    """opts: pathmode, buf (YGM_COMM_BUFFER_SIZE_KB or None = library default), routing, issend, irecvs, isends_wait,
+    policy + placement (simmpi), calls, g0 (0 = world communicator, else split into [0,g0) and [g0,n))"""
     d = tempfile.mkdtemp(prefix="c18spec-")
     try:
         spec = os.path.join(d, "spec.txt")
         write_spec(spec, fset)
-        nodes, ppn = factor_layout(n)
-        env = {"YGM_COMM_ROUTING": opts["routing"]}
+        nodes, ppn = factor_layout(n, opts.get("g0", 0), opts.get("placement", "block"))
+        env = {"YGM_COMM_ROUTING": opts["routing"], "YGM_COMM_ISSEND_FREQ": opts["issend"], "YGM_COMM_NUM_IRECVS": opts["irecvs"],
+               "YGM_COMM_NUM_ISENDS_WAIT": opts["isends_wait"]}
         if opts["buf"] is not None:
             env["YGM_COMM_BUFFER_SIZE_KB"] = opts["buf"]
-        sr = C.run_sim(binary, [fset["kind"], spec, pathmode, opts["calls"]], nodes=nodes, ppn=ppn, want_log=False,
-                       env=env, policy=opts["policy"], sim_seed=sim_seed, timeout=900)
+        if opts.get("placement") == "cyclic":
+            env["SIMMPI_PLACEMENT"] = "cyclic"
+        sr = C.run_sim(binary, [fset["kind"], spec, opts["pathmode"], opts["calls"], opts.get("g0", 0)], nodes=nodes, ppn=ppn,
+                       want_log=False, env=env, policy=opts["policy"], sim_seed=sim_seed, timeout=900)
     finally:
         shutil.rmtree(d, ignore_errors=True)
     return sr
 
 
 def split_out(sr, n):
-    """per call, per rank Counter of items; oracle {(f,i): item}; reported sizes"""
+    """per call, per world rank Counter of items; oracle {(f,i): item}; reported sizes"""
     calls, oracle, fsizes = {}, {}, {}
     for r in range(n):
         cur = None
@@ -383,19 +410,24 @@ def sig_of(kind, missing, extra):
     return f"{kind}-not-exactly-once missing={min(len(missing), 9)} duplicated-or-foreign={min(len(extra), 9)}"
 
 
-def check_run(res, fset, n, pathmode, opts, sr, msizes, cv, dl, alll, tier, seed):
+def check_run(res, fset, n, opts, sr, models, tier, seed):
+    """models: {group size: (msizes, cv, dl, alll)} for the files visible under opts['pathmode']"""
     kind = fset["kind"]
+    nvis = visible(fset, opts["pathmode"])
+    groups = groups_of(n, opts)
     case = {"tier": tier, "seed": seed, "set": fset["idx"], "kind": kind, "shape": fset["shape"], "shape_req": fset["req"], "ranks": n,
-            "pathmode": pathmode, "opts": opts, "sizes": fset["sizes"], "final_newline": [nl for nl, _ in fset["files"]],
-            "model_ranges": cv}
+            "opts": opts, "sizes": fset["sizes"][:12], "files": len(fset["sizes"]), "files_visible": nvis,
+            "final_newline": [nl for nl, _ in fset["files"]][:12], "groups": [len(g) for g in groups]}
     res.evaluations += 1
     if sr.verdict != "ok":
         res.oracle_failures.append({"what": f"{PARSER[kind]} run failed: {sr.verdict}", "signature": f"{kind}-run-{sr.verdict.split(':')[0]}",
                                     "case": dict(case, stderr=sr.stderr[-400:], blocked=sr.blocked)})
         return
-    calls, oracle, fsizes = split_out(sr, n)
+    calls, oracle_all, fsizes = split_out(sr, n)
+    oracle = {k: v for k, v in oracle_all.items() if k[0] < nvis}
+    msizes, _, _, alll = models[len(groups[0])]
     # -- the generated files are what the model was given
-    if [fsizes.get(f) for f in range(len(msizes))] != msizes:
+    if [fsizes.get(f) for f in range(nvis)] != msizes or [fsizes.get(f) for f in range(len(fset["sizes"]))] != fset["sizes"]:
         res.corr_failures.append({"relation": "File.size == fs::file_size of the generated file", "what": "sizes differ",
                                   "case": dict(case, real=fsizes, model=msizes)})
         return
@@ -411,60 +443,72 @@ def check_run(res, fset, n, pathmode, opts, sr, msizes, cv, dl, alll, tier, seed
     if sorted(calls.keys()) != list(range(opts["calls"])):
         res.corr_failures.append({"relation": "harness performed the requested for_all calls", "what": f"calls seen {sorted(calls.keys())}", "case": case})
         return
-    # -- expected per rank from the model
-    if kind == "csv":
-        keep = C.model("lines", ["csvkeep " + " ".join(oracle[x].split()[1] for x in d) for d in dl])
-        exp = [collections.Counter(oracle[d[int(p)]] for p in k.split()) for d, k in zip(dl, keep)]
-        seq = collections.Counter(v for v in oracle.values() if int(v.split()[1]) > 0)
-    else:
-        exp = [collections.Counter(oracle[x] for x in d) for d in dl]
-        seq = collections.Counter(oracle.values())
-    for ci in range(opts["calls"]):
-        per_rank = calls[ci]
-        ccase = dict(case, call=ci)
-        # -- direct oracle: union over all ranks == sequential read (for every for_all call)
-        union = collections.Counter()
-        for c in per_rank:
-            union.update(c)
-        if union != seq:
-            missing = list((seq - union).items())
-            extra = list((union - seq).items())
-            res.oracle_failures.append({"what": f"{PARSER[kind]}::for_all (call {ci + 1} of {opts['calls']}) over {n} ranks, buffer "
-                                                f"{opts['buf'] if opts['buf'] is not None else 'default'} KB, routing {opts['routing']}: "
-                                                f"{sum(v for _, v in missing)} record(s) never delivered, "
-                                                f"{sum(v for _, v in extra)} delivered too often / not in the files",
-                                        "signature": sig_of(kind, missing, extra),
-                                        "case": dict(ccase, missing=missing[:6], extra=extra[:6],
-                                                     items_per_rank=[sum(c.values()) for c in per_rank])})
-        # -- correspondence, rank by rank
-        for r in range(n):
-            if per_rank[r] != exp[r]:
-                res.corr_failures.append({"relation": "Lines.delivered (carve + readRange) == items delivered per rank",
-                                          "what": f"rank {r} of {n} differs (call {ci + 1})",
-                                          "case": dict(ccase, rank=r, only_real=list((per_rank[r] - exp[r]).items())[:5],
-                                                       only_model=list((exp[r] - per_rank[r]).items())[:5])})
-                break
-        res.count("for_all calls compared")
-        res.count("lines-delivered", sum(union.values()))
+    seq = collections.Counter(v for v in oracle.values() if kind != "csv" or int(v.split()[1]) > 0)
+    where = (f"buffer {opts['buf'] if opts['buf'] is not None else 'default'} KB, routing {opts['routing']}, paths {opts['pathmode']}")
+    with_data_max = 0
+    for gi, ranks in enumerate(groups):
+        ng = len(ranks)
+        _, cv, dl, _ = models[ng]
+        gcase = dict(case, group=gi, group_world_ranks=ranks, model_ranges=[rs[:6] for rs in cv])
+        # -- expected per rank from the model
+        if kind == "csv":
+            keep = C.model("lines", ["csvkeep " + " ".join(oracle[x].split()[1] for x in d) for d in dl])
+            exp = [collections.Counter(oracle[d[int(p)]] for p in k.split()) for d, k in zip(dl, keep)]
+        else:
+            exp = [collections.Counter(oracle[x] for x in d) for d in dl]
+        comm_name = "the world communicator" if len(groups) == 1 else f"sub-communicator {gi} (world ranks {ranks[0]}..{ranks[-1]})"
+        for ci in range(opts["calls"]):
+            per_rank = [calls[ci][r] for r in ranks]
+            ccase = dict(gcase, call=ci)
+            # -- direct oracle: union over the ranks of the communicator == sequential read of the files to visit
+            union = collections.Counter()
+            for c in per_rank:
+                union.update(c)
+            if union != seq:
+                missing = list((seq - union).items())
+                extra = list((union - seq).items())
+                res.oracle_failures.append({"what": f"{PARSER[kind]}::for_all (call {ci + 1} of {opts['calls']}) on {comm_name}, {ng} ranks, {where}: "
+                                                    f"{sum(v for _, v in missing)} record(s) never delivered, "
+                                                    f"{sum(v for _, v in extra)} delivered too often / not in the files to visit",
+                                            "signature": sig_of(kind, missing, extra),
+                                            "case": dict(ccase, missing=missing[:6], extra=extra[:6],
+                                                         items_per_rank=[sum(c.values()) for c in per_rank])})
+            # -- correspondence, rank by rank
+            for r in range(ng):
+                if per_rank[r] != exp[r]:
+                    res.corr_failures.append({"relation": "Lines.delivered (carve + readRange) == items delivered per rank",
+                                              "what": f"rank {r} of {ng} differs (call {ci + 1}, {comm_name})",
+                                              "case": dict(ccase, rank=r, only_real=list((per_rank[r] - exp[r]).items())[:5],
+                                                           only_model=list((exp[r] - per_rank[r]).items())[:5])})
+                    break
+            res.count("for_all calls compared")
+            res.count("lines-delivered", sum(union.values()))
+        vset = dict(fset, files=fset["files"][:nvis], sizes=fset["sizes"][:nvis])
+        with_data = classify(res, vset, cv)
+        with_data_max = max(with_data_max, with_data)
+        res.count(f"ranks-with-a-range={with_data}")
+        if with_data >= 2 or nvis >= 20:
+            res.distinct.add((fset["idx"], kind, n, gi))
     res.traces_validated += 1
-    with_data = classify(res, fset, cv)
-    if with_data >= 2:
-        res.distinct.add((fset["idx"], kind, n))
-    elif len(fset["sizes"]) >= 32:
-        res.distinct.add((fset["idx"], kind, n))     # many files on one rank: not split, but not the trivial one-range case
     res.count(f"kind={kind}")
     res.count(f"shape={fset['shape']}")
-    res.count(f"ranks-with-a-range={with_data}")
-    res.count(f"buffer_kb={opts['buf'] if opts['buf'] is not None else 'default'}")
+    res.count(f"paths={opts['pathmode']}")
+    res.count(f"{kind}: buffer_kb={opts['buf'] if opts['buf'] is not None else 'default'}")
     res.count(f"routing={opts['routing']}")
     res.count(f"policy={opts['policy']}")
+    res.count(f"issend_freq={opts['issend']} irecvs={opts['irecvs']} isends_wait={opts['isends_wait']}")
+    if opts.get("placement") == "cyclic":
+        res.count("cyclic placement")
+    if len(groups) > 1:
+        res.count("runs on two sub-communicators of different size")
     if opts["calls"] > 1:
         res.count("runs with two back-to-back for_all calls on one parser")
-    if any(not nl and lens for nl, lens in fset["files"]):
+    if any(not nl and lens for nl, lens in fset["files"][:nvis]):
         res.count("runs with a file lacking the final newline")
-    if len(res.samples) < 3 and with_data >= 2:
-        res.sample({"kind": kind, "shape": fset["shape"], "ranks": n, "opts": opts, "file_sizes": fset["sizes"], "ranges_per_rank": cv,
-                    "items_per_rank": [sum(c.values()) for c in calls[0]]})
+    if len(res.samples) < 3 and with_data_max >= 2:
+        res.sample({"kind": kind, "shape": fset["shape"], "ranks": n, "opts": opts, "file_sizes": fset["sizes"][:8],
+                    "ranges_per_rank": [rs[:3] for rs in models[len(groups[-1])][1]],
+                    "items_per_world_rank": [sum(c.values()) for c in calls[0]]})
 
 
 # ------------------------------------------------------------------ plan
@@ -476,29 +520,46 @@ def plan(tier, seed):
         return ([("lines", i, None, r18) for i in range(5)] + [("lines", 5, "big", [4, 5, 6, 7, 8])]
                 + [("lines", 6, "F1", r38), ("lines", 7, "F2", r38), ("lines", 8, "F3", r38)]
                 + [("lines", 9, "S", r18), ("lines", 10, "M", [1, 2, 3, 4, 6, 8])]
-                + [("csv", 0, None, [1, 2, 3, 5]), ("ndjson", 0, None, [2, 3, 4]), ("csv", 1, "S", [2, 4])])
+                + [("csv", 0, None, [1, 2, 3, 5]), ("ndjson", 0, None, [2, 3, 4]), ("csv", 1, "S", [2, 3, 4, 6]),
+                   ("ndjson", 1, "M", [2, 3, 5, 6])])
     p = [("lines", i, None, r18) for i in range(30)]
     p += [("lines", 30 + i, f"F{1 + i % 3}", r38) for i in range(9)]
     p += [("lines", 40 + i, "S", r18) for i in range(3)] + [("lines", 44 + i, "M", r18) for i in range(3)]
     p += [("csv", i, None, [1, 2, 3, 4, 6, 8]) for i in range(3)] + [("ndjson", i, None, [1, 2, 3, 5, 7]) for i in range(3)]
-    p += [("csv", 3, "S", [2, 3, 4]), ("ndjson", 3, "M", [3, 4])]
+    p += [("csv", 3, "S", r18), ("csv", 4, "B", r18), ("ndjson", 3, "M", [2, 3, 4, 6]), ("ndjson", 4, "B", r18)]
     return p
 
 
-PATHMODES = ["files", "dir", "dup"]
 PARSER = {"lines": "line_parser", "csv": "csv_parser", "ndjson": "ndjson_parser"}
+PATHMODES = ["files", "dir", "dup"]
+TREEMODES = ["files", "tree-rec", "dir", "tree-flat", "dup"]       # sets with at least three files
 BUFS = [None, 0, 1]
 ROUTINGS = ["NONE", "NR", "NLNR"]
 POLICIES = ["uniform", "racer", "starve", "late", "burst"]
+ISSEND = [8, 0, 1]
+IRECVS = [8, 1, 2]
+ISENDS_WAIT = [4, 0, 1]
 
 
 def options(fset, n, seed):
-    """environment of one run: send-buffer size, routing scheme, simmpi delivery policy, number of for_all calls.
-    Deterministic in (set, ranks, seed); every value of every dimension occurs for every set."""
-    i = fset["idx"]
+    """environment of one run — a deterministic function of (set, ranks, seed), recorded in the case: path mode
+    (incl. directory trees with recursive true/false), send-buffer size, routing, issend frequency, number of posted
+    receives, isend wait threshold, simmpi delivery policy and placement, number of for_all calls on the parser,
+    and whether the parser lives on the world communicator or on two sub-communicators of different size."""
+    i = fset["idx"] + (0 if fset["kind"] == "lines" else 3 if fset["kind"] == "csv" else 7)
+    nf = len(fset["sizes"])
     small = sum(fset["sizes"]) < 30 * 1024 * 1024
-    return {"buf": BUFS[(i + n + seed) % 3], "routing": ROUTINGS[(2 * i + n + seed // 3) % 3],
-            "policy": POLICIES[(i + 2 * n + seed) % 5], "calls": 2 if small and (i + n) % 2 == 0 or len(fset["sizes"]) >= 32 else 1}
+    g0 = 0
+    if n >= 3 and not fset["shape"].startswith("F") and (i + n + seed) % 4 == 0:
+        g0 = 2 if n in (6, 8) else (n - 1) // 2   # 3:1+2  4:1+3  5:2+3  7:3+4 (one node)   6:2+4  8:2+6 (several nodes)
+    cyc = (i + n + seed) % 2 == 0 if not g0 else (i + n + seed) % 8 == 0
+    nodes, _ = factor_layout(n, g0, "cyclic" if cyc else "block")
+    return {"pathmode": TREEMODES[(i + n) % 5] if nf >= 3 else PATHMODES[(i + n) % 3],
+            "buf": BUFS[(i + n + seed) % 3], "routing": ROUTINGS[(2 * i + n + seed // 3) % 3],
+            "issend": ISSEND[(i + n // 2 + seed) % 3], "irecvs": IRECVS[(i // 2 + n + seed) % 3],
+            "isends_wait": ISENDS_WAIT[(i + n + seed // 2) % 3],
+            "policy": POLICIES[(i + 2 * n + seed) % 5], "placement": "cyclic" if nodes > 1 and cyc else "block",
+            "calls": 2 if small and (i + n) % 2 == 0 or nf >= 32 else 1, "g0": g0}
 
 
 def run(tier, seed, model_ok=True):
@@ -508,9 +569,11 @@ def run(tier, seed, model_ok=True):
                        "libstdc++ ifstream seekg/getline/tellg behave as modelled (compared on the generated inputs)",
                        "parse_csv_line / boost::json::parse are parameters: the real functions are applied on both sides",
                        "files are not modified while being parsed; node_local_filesystem=false (the other branch asserts)",
-                       "the model describes one for_all call; that the per-rank assignment list is empty at the start of every call and "
-                       "complete after the second barrier (C01/C02) is exercised (buffer sizes 0/1 KB/default, three routings, five "
-                       "delivery policies, repeated calls), not proved here"]
+                       "the model describes one for_all call on one communicator; that the per-rank assignment list is empty at the start of "
+                       "every call and complete after the second barrier (C01/C02), that 'rank 0' is the communicator's own rank 0, and which "
+                       "files check_paths visits (listed files, files directly in a listed directory, with recursive = true the whole tree) "
+                       "are exercised (buffer sizes, routings, issend/irecv/isend-wait settings, delivery policies, placements, repeated "
+                       "calls, sub-communicators, directory trees), not proved here"]
     binary, err = C.build_harness("lines")
     if binary is None:
         res.corr_failures.append({"relation": "harness builds against /repo", "what": err[-800:], "case": None})
@@ -519,22 +582,30 @@ def run(tier, seed, model_ok=True):
         res.corr_failures.append({"relation": "model driver available", "what": "Lean library does not build", "case": None})
         return res
     sets = [(gen_set(tier, seed, idx, kind, shape), ranks) for (kind, idx, shape, ranks) in plan(tier, seed)]
-    models = C.pmap(lambda sr: model_session(sr[0], sr[1]), sets, workers=6)
-    jobs = []
-    for (fset, ranks), (msizes, wf, per_n, alll) in zip(sets, models):
-        if not all(wf):
-            res.corr_failures.append({"relation": "generated files are canonical (File.WF)", "what": "generator produced a non-canonical file", "case": {"set": fset["idx"]}})
-            continue
+    jobs, need = [], collections.defaultdict(set)       # need: (set position, files visible) -> communicator sizes
+    for si, (fset, ranks) in enumerate(sets):
         for n in ranks:
-            jobs.append((fset, n, PATHMODES[(fset["idx"] + n) % 3], options(fset, n, seed), msizes, per_n[n], alll))
+            opts = options(fset, n, seed)
+            jobs.append((si, n, opts))
+            for g in groups_of(n, opts):
+                need[(si, visible(fset, opts["pathmode"]))].add(len(g))
+    keys = sorted(need)
+    sessions = dict(zip(keys, C.pmap(lambda k: model_session(sets[k[0]][0], sorted(need[k]), k[1]), keys, workers=6)))
+    for (si, nvis), (msizes, wf, per_n, alll) in sessions.items():
+        if not all(wf):
+            res.corr_failures.append({"relation": "generated files are canonical (File.WF)", "what": "generator produced a non-canonical file", "case": {"set": sets[si][0]["idx"]}})
+            return res
 
     def do(job):
-        fset, n, pm, opts, msizes, (cv, dl), alll = job
-        return job, run_real(binary, fset, n, pm, opts, seed * 1000 + n)
+        si, n, opts = job
+        return job, run_real(binary, sets[si][0], n, opts, seed * 1000 + n)
 
     workers = 8 if tier == "quick" else 5       # bounds the disk used at any time (each run writes its own copy of the set)
-    for (fset, n, pm, opts, msizes, (cv, dl), alll), sr in C.pmap(do, jobs, workers=workers):
-        check_run(res, fset, n, pm, opts, sr, msizes, cv, dl, alll, tier, seed)
+    for (si, n, opts), sr in C.pmap(do, jobs, workers=workers):
+        fset = sets[si][0]
+        msizes, wf, per_n, alll = sessions[(si, visible(fset, opts["pathmode"]))]
+        models = {len(g): (msizes, per_n[len(g)][0], per_n[len(g)][1], alll) for g in groups_of(n, opts)}
+        check_run(res, fset, n, opts, sr, models, tier, seed)
     return res
 
 
@@ -555,12 +626,15 @@ def replay(data):
         return False
     fset = gen_set(case["tier"], case["seed"], case["set"], case["kind"], case.get("shape_req"))
     n, opts = case["ranks"], case["opts"]
-    msizes, wf, per_n, alll = model_session(fset, [n])
-    sr = run_real(binary, fset, n, case["pathmode"], opts, case["seed"] * 1000 + n)
+    gsizes = sorted({len(g) for g in groups_of(n, opts)})
+    msizes, wf, per_n, alll = model_session(fset, gsizes, visible(fset, opts["pathmode"]))
+    models = {g: (msizes, per_n[g][0], per_n[g][1], alll) for g in gsizes}
+    sr = run_real(binary, fset, n, opts, case["seed"] * 1000 + n)
     res = C.Result()
-    check_run(res, fset, n, case["pathmode"], opts, sr, msizes, per_n[n][0], per_n[n][1], alll, case["tier"], case["seed"])
+    check_run(res, fset, n, opts, sr, models, case["tier"], case["seed"])
     print("verdict", sr.verdict, "file sizes", fset["sizes"][:8], "ranks", n, "options", opts)
-    print("model ranges per rank:", [rs[:4] for rs in per_n[n][0]])
+    for g in gsizes:
+        print(f"model ranges per rank ({g} ranks):", [rs[:4] for rs in per_n[g][0]])
     for f in res.oracle_failures:
         print("ORACLE", f["what"], f["case"].get("missing"), f["case"].get("extra"))
     for f in res.corr_failures:
